@@ -8,6 +8,7 @@ import (
 	"testing/synctest"
 	"time"
 
+	"github.com/jcmturner/gokrb5/v8/keytab"
 	"github.com/jcmturner/gokrb5/v8/service"
 	"github.com/jcmturner/gokrb5/v8/types"
 )
@@ -17,6 +18,17 @@ var uniqueClient int64
 // settingsFor builds the service settings and the model's settings tokens.
 func settingsFor(c apCase) (*service.Settings, string) {
 	kt, _ := serviceKeytab()
+	_, toks := settingsOptsToks(c)
+	return service.NewSettings(kt, settingsOpts(c)...), toks
+}
+
+func serviceKeytabOnly() *keytab.Keytab { kt, _ := serviceKeytab(); return kt }
+
+func atomicAdd(p *int64) int64 { return atomic.AddInt64(p, 1) }
+
+func settingsOpts(c apCase) []func(*service.Settings) { o, _ := settingsOptsToks(c); return o }
+
+func settingsOptsToks(c apCase) ([]func(*service.Settings), string) {
 	opts := []func(*service.Settings){service.MaxClockSkew(c.skew), service.RequireHostAddr(c.reqHost), service.DecodePAC(c.decodePAC), service.Logger(discard)}
 	caddr := "-"
 	if c.clientAddr != nil {
@@ -32,7 +44,7 @@ func settingsFor(c apCase) (*service.Settings, string) {
 		}
 		ovr = "o" + List(cs)
 	}
-	return service.NewSettings(kt, opts...), fmt.Sprintf("%d %s %s %s %s", c.skew/time.Microsecond, caddr, B(c.reqHost), B(c.decodePAC), ovr)
+	return opts, fmt.Sprintf("%d %s %s %s %s", c.skew/time.Microsecond, caddr, B(c.reqHost), B(c.decodePAC), ovr)
 }
 
 // runAPCase mints the request and has the real service verify it under the fake clock; returns the Go
